@@ -42,7 +42,7 @@ def check_cache(
     identity = f"{node.definition_hash}:{node.outputs!r}"
     targets = getattr(node, "targets", None)
     if targets is not None:
-        identity += f":{[str(t) for t in targets]!r}"
+        identity += f":{[str(t) for t in targets]!r}:{getattr(node, 'fallback', None)!s}"
     cache_key = compute_cache_key(identity, node.map_inputs_to_params(inputs))
     if not cache_key:
         return "", None
